@@ -40,9 +40,21 @@ class RichSwnmRebuilder:
             for switch_index in range(0, MAX_SWITCHES)
         ]
         id_by_switch = {}
-        for used_switch in all_used_switches:
+        # the names the SWNM already holds are placed first and a switch referred to by its
+        # number alone never erases one, so that whether a slot keeps its name does not
+        # depend on the iteration order of a set
+        named_switch_objects = {id(x) for x in switches_in_swnm_with_names}
+        switches_in_placement_order = list(switches_in_swnm_with_names) + [
+            x for x in used_switches if id(x) not in named_switch_objects
+        ]
+        for used_switch in switches_in_placement_order:
             if used_switch.index is not None:
-                new_switches[used_switch.index] = used_switch
+                if not cls._determine_if_switch_has_no_custom_name(
+                    used_switch
+                ) or cls._determine_if_switch_has_no_custom_name(
+                    new_switches[used_switch.index]
+                ):
+                    new_switches[used_switch.index] = used_switch
                 id_by_switch[used_switch] = used_switch.index
             else:
                 if allocable_id_pointer > len(allocable_ids) - 1:
